@@ -293,6 +293,24 @@ def sc_fit(cx, keys, minimizer, variant):
         vals[nm] = v
         mu.use(vals)
         fixed[nm] = v
+    elif variant == "multi-fix-then-shared-error":
+        # a shared source declared AFTER fixing / limiting on the multi-fit: both must survive
+        nm = mu.names[1]
+        v = cx.real("v_fix")
+        cx.assume(v != 0)
+        mf.fix_parameter(nm, v)
+        vals = dict(mu.vals)
+        vals[nm] = v
+        mu.use(vals)
+        fixed[nm] = v
+        lo_, hi_ = cx.real("lo"), cx.real("hi")
+        cx.assume(lo_ < mu.vals[mu.names[0]])
+        cx.assume(mu.vals[mu.names[0]] < hi_)
+        mf.limit_parameter(mu.names[0], lo_, hi_)
+        v_pre["lim"] = (mu.names[0], lo_, hi_)
+        se = cx.real("sh_e")
+        cx.assume(se > 0)
+        mf.add_error(se, fits=[0, 1], axis="y", name="shared-late")
     elif variant == "multi-fix-release":
         nm = mu.names[1]
         mf.fix_parameter(nm)
@@ -318,7 +336,7 @@ def sc_fit(cx, keys, minimizer, variant):
             cx.eq(tag + ":start-point-handed-to-backend==current-values", list(first["start"]), [start_vals[nm] for nm in mu.names])
             flags = list(first["fixed"])
             cx.concrete(tag + ":fixed-flags-handed-to-backend", flags == [nm in fixed for nm in mu.names], info="%r vs fixed=%r" % (flags, list(fixed)))
-        if variant == "member-limited-before":
+        if variant in ("member-limited-before", "multi-fix-then-shared-error"):
             nm, lo, hi = v_pre["lim"]
             i = mu.names.index(nm)
             if minimizer == "scipy":
@@ -335,7 +353,7 @@ def sc_fit(cx, keys, minimizer, variant):
         if cx.symbolic and q is not None and len(q) == len(mu.names):
             keep = dict(mu.vals)
             mu.use(dict(zip(mu.names, q)))
-            if not any(pb.ftype == "xy" and any(s["axis"] == "x" or s["reference"] == "model" for s in pb.sources) for pb in mu.members):
+            if variant != "multi-fix-then-shared-error" and not any(pb.ftype == "xy" and any(s["axis"] == "x" or s["reference"] == "model" for s in pb.sources) for pb in mu.members):
                 cx.eq(tag + ":objective(q)==sum-of-documented-costs(q)", c["fq"], mu.sum_oracle())
             mu.use(keep)
         cx.concrete(tag + ":backend-was-called", ncalls >= 1)
@@ -345,7 +363,8 @@ def sc_fit(cx, keys, minimizer, variant):
         for nm, v in fixed.items():
             cx.eq(tag + ":fixed-%s-keeps-its-value" % nm, mf.parameter_values[mu.names.index(nm)], v)
         mu.check_common_values(tag + ":after-fit")
-        mu.check_cost_sum(tag + ":after-fit", oracle=False)
+        if variant != "multi-fix-then-shared-error":  # (with a shared source the cost is the joint chi2: shared/* family)
+            mu.check_cost_sum(tag + ":after-fit", oracle=False)
     _check_pushdown(cx, mu, tag + ":after-fit")
     cx.eq(tag + ":result-dict-values", [res["parameter_values"][nm] for nm in mu.names], list(mf.parameter_values))
     if variant == "asymmetric":
@@ -611,7 +630,7 @@ def scenarios(tier, seed):
             if q and (ci + vi) % 2 and v not in ("member-set",):
                 continue
             S.append(Scenario("sum/%s/%s" % ("+".join(keys), v), sc_sum, family="sum/" + v, params=dict(keys=keys, variant=v)))
-    fit_variants = ["plain", "member-set-then-fit", "member-set-then-multi-fix", "multi-fix-value", "multi-fix-release", "member-fixed-before", "member-limited-before", "asymmetric"]
+    fit_variants = ["plain", "member-set-then-fit", "member-set-then-multi-fix", "multi-fix-value", "multi-fix-release", "member-fixed-before", "member-limited-before", "multi-fix-then-shared-error", "asymmetric"]
     fit_combos = [["xyab", "xybc"], ["xyab", "idba"], ["xyab", "xybc", "idba"]] + ([] if q else [["xyab-x", "xybc-k"], ["xyba", "idbc-k"]])
     for ci, keys in enumerate(fit_combos):
         for minimizer in ("scipy", "iminuit"):
